@@ -159,6 +159,19 @@ std::vector<Clause> buildClauses() {
     add("read/unknown-type-ascii", "runtime_error", true, any, [](TasmanianSparseGrid &g, Rng &) { std::string s = validFile(false); size_t p = s.find("global"); if (p != std::string::npos) s.replace(p, 6, "glibal"); putFile("/simfs/bad.tsg", s); g.read("/simfs/bad.tsg"); });
     add("read/unknown-type-binary", "runtime_error", true, any, [](TasmanianSparseGrid &g, Rng &) { std::string s = validFile(true); s[4] = 'q'; putFile("/simfs/bad.tsg", s); g.read("/simfs/bad.tsg"); });
     add("read/future-version-ascii", "runtime_error", true, any, [](TasmanianSparseGrid &g, Rng &) { std::string s = validFile(false); size_t p = s.find("SG ") + 3, e = s.find_first_of(" \n", p); s.replace(p, e - p, "99.1"); putFile("/simfs/bad.tsg", s); g.read("/simfs/bad.tsg"); });
+    // a Tasmanian header and grid block followed by a damaged trailing section (transforms / limits / construction flag / end marker)
+    add("read/damaged-trailer-ascii", "runtime_error", true, any, [](TasmanianSparseGrid &g, Rng &r) {
+        TasmanianSparseGrid t; t.makeGlobalGrid(3, 1, 2, type_level, rule_clenshawcurtis); double a[3] = {-1, 0, 1}, b[3] = {2, 3, 4}; if (r.chance(0.6)) t.setDomainTransform(a, b);
+        std::vector<double> v((size_t)t.getNumNeeded(), 1.5); if (r.chance(0.5)) t.loadNeededValues(v);
+        std::ostringstream os; t.write(os, mode_ascii); std::string s = os.str();
+        std::vector<std::string> words{"TASMANIAN SG end", "nonconformal", "unlimited", "static", "canonical", "custom"};
+        std::string w = words[r.below(words.size())]; size_t p = s.rfind(w);
+        if (p == std::string::npos) { w = "TASMANIAN SG end"; p = s.rfind(w); }
+        int how = (int)r.below(3);
+        if (how == 0) s.replace(p + w.size() / 2, 1, "#");          // garbled keyword
+        else if (how == 1) s.erase(p);                                // cut right before it
+        else s.replace(p, w.size(), "unknownword");                   // another word
+        if (r.chance(0.5)) { putFile("/simfs/bad.tsg", s); g.read("/simfs/bad.tsg"); } else { std::istringstream is(s); g.read(is, mode_ascii); } });
     // same major version, later minor version (written by a newer release of the same series)
     add("read/future-minor-version-ascii", "runtime_error", true, any, [](TasmanianSparseGrid &g, Rng &r) { std::string s = validFile(false); size_t p = s.find("SG ") + 3, e = s.find_first_of(" \n", p); std::string v = s.substr(p, e - p); size_t dot = v.find('.');
         int major = atoi(v.substr(0, dot).c_str()), minor = dot == std::string::npos ? 0 : atoi(v.substr(dot + 1).c_str());
